@@ -89,8 +89,14 @@ class HTMLTokenizer(object):
             charStack.append(c)
             c = self.stream.char()
 
-        # Convert the set of characters consumed to an int.
-        charAsInt = int("".join(charStack), radix)
+        # Convert the set of characters consumed to an int. No code point has
+        # more than seven significant digits, and int() refuses very long
+        # digit strings, so anything longer is simply out of range.
+        digitString = "".join(charStack).lstrip("0")
+        if len(digitString) > 7:
+            charAsInt = 0x110000
+        else:
+            charAsInt = int(digitString or "0", radix)
 
         # Certain characters get replaced with others
         if charAsInt in replacementCharacters:
